@@ -50,8 +50,10 @@ def r1_r2(ctx: Ctx, pf: FuncInfo) -> None:
     reass = [s for s in ast.walk(lp) if isinstance(s, (ast.Assign, ast.AugAssign)) and any(isinstance(n, ast.Name) and n.id == idx and isinstance(n.ctx, ast.Store) for n in ast.walk(s))]
     ctx.check(not reass, 'C18.R1', pf, 'index-stable', 'the column index is never modified', f'{src(reass[0])[:40] if reass else ""!r} modifies the column index', reass[0] if reass else None)
     # skip tokens do not consume a table slot but still consume a position (continue inside the enumerate loop)
-    skips = [s for s in lp.body if isinstance(s, ast.If) and "'_'" in src(s.test) and isinstance(s.body[-1], ast.Continue)]
-    ctx.check(bool(skips) and "'*'" in src(skips[0].test), 'C18.R1', pf, 'skip-tokens', '{_} and {*} skip a column (and keep its position)', 'skip tokens are not handled')
+    # decided on the guards of the two position stores, so `if skip: continue` and `if not skip: <store>` are the same to the rule
+    need = {("field_name == '_'", False), ("field_name == '*'", False)}
+    ok = all(need <= cfg.guard_literals_within(s, lp) or any(("field_name in ('_', '*')", False) == x or ("field_name in ('*', '_')", False) == x for x in cfg.guard_literals_within(s, lp)) for s in stores)
+    ctx.check(ok, 'C18.R1', pf, 'skip-tokens', '{_} and {*} skip a column (and keep its position)', 'skip tokens are not handled: {_} / {*} would be stored as a column name')
 
     # ---- R2
     g_by = {src(s.targets[0].value): cfg.guard_literals_within(s, lp) for s in stores}
